@@ -32,6 +32,7 @@ import (
 	"encoding/json"
 	"errors"
 	"fmt"
+	"io"
 	"net"
 	"os"
 	"strings"
@@ -254,6 +255,36 @@ func c10BlackholeDirected(slack time.Duration) []c10History {
 	return out
 }
 
+// c10LateAcceptDirected: a passive endpoint still waiting for its peer is closed, and at that very instant the
+// listener's Accept yields an established connection (every transport; after a drop as well as on the first
+// listen). Close must still return within its bound and leave neither the adopted socket nor its receive loop behind.
+func c10LateAcceptDirected() []c10History {
+	op := func(k string, a int) c10Op { return c10Op{Kind: k, Arg: a} }
+	var out []c10History
+	for _, t := range []struct {
+		name  string
+		equip bool
+	}{{"", false}, {"secs1", false}, {"secs1", true}} {
+		lates := func(pre ...string) []string {
+			o := append([]string(nil), pre...)
+			for i := 0; i < 6; i++ {
+				o = append(o, "lateAccept")
+			}
+			return o
+		}
+		mkh := func(tag string, behs []string, progs [][]c10Op) c10History {
+			return c10History{Role: "passive", Transport: t.name, S1Equip: t.equip, Tag: tag, Behs: behs, Progs: progs}
+		}
+		out = append(out,
+			mkh("late-accept-first-listen", lates(), [][]c10Op{{op("openBg", 0), op("sleep", 40), op("close", 0)}, {op("sleep", 120), op("state", 0)}}),
+			mkh("late-accept-after-drop", lates("drop"), [][]c10Op{{op("openBg", 0), op("sleep", 90), op("close", 0)}}),
+			mkh("late-accept-close-reopen", lates(), [][]c10Op{{op("openBg", 0), op("sleep", 40), op("close", 0), op("openBg", 0), op("sleep", 40), op("close", 0)}}),
+			mkh("late-accept-close-storm", lates(), [][]c10Op{{op("openBg", 0), op("sleep", 40), op("close", 0)}, {op("sleep", 41), op("close", 0)}, {op("sleep", 39), op("openBg", 0)}}),
+		)
+	}
+	return out
+}
+
 type c10Result struct {
 	h          c10History
 	obs        []string
@@ -407,6 +438,10 @@ func c10RunHistory(h c10History) (res c10Result) {
 	ln.onListen = func(n int, l *lifeListener) {
 		b := behOf(n)
 		if b == "blackhole" { // a listener that nobody ever connects to
+			return
+		}
+		if b == "lateAccept" { // nobody connects until the library closes the listener: then Accept yields a peer
+			l.late = func(conn net.Conn) { _, _ = io.Copy(io.Discard, conn); _ = conn.Close() }
 			return
 		}
 		ln.debugf("listen#%d up, behaviour %s", n, b)
@@ -1327,6 +1362,7 @@ func runC10(c *Ctx) {
 			Progs: [][]c10Op{{{Kind: "openBg"}, {Kind: "sleep", Arg: 20}, {Kind: "sendBig", Arg: 800}}, {{Kind: "sleep", Arg: 28 + 3*i}, {Kind: "close"}}}})
 	}
 	hs = append(hs, c10BlackholeDirected(slack)...)
+	hs = append(hs, c10LateAcceptDirected()...)
 	for i := 0; i < c.Pick(150, 2400); i++ {
 		hs = append(hs, c10GenHistory(c, 0))
 	}
